@@ -1,0 +1,10 @@
+// Copyright (c) The Thanos Community Authors.
+// Licensed under the Apache License 2.0.
+
+//go:build !verif
+
+package model
+
+func verifPoisonVectors([]StepVector) {}
+
+func verifPoisonStepVector(StepVector) {}
